@@ -205,6 +205,9 @@ type Driver struct {
 
 	errs chan error
 	done chan bool
+
+	closeOnce sync.Once
+	closeErr  error
 }
 
 // Open opens the underlying generic.Driver, and by extension the channel.Channel and Transport
@@ -257,16 +260,16 @@ func (d *Driver) Close() error {
 		d.Transport.Args.Port,
 	)
 
-	d.done <- true
+	d.closeOnce.Do(func() {
+		d.done <- true
 
-	err := d.Channel.Close()
-	if err != nil {
-		return err
-	}
+		d.closeErr = d.Channel.Close()
+		if d.closeErr == nil {
+			d.Logger.Info("connection closed successfully")
+		}
+	})
 
-	d.Logger.Info("connection closed successfully")
-
-	return nil
+	return d.closeErr
 }
 
 func (d *Driver) buildPayload(payload interface{}) *message {
